@@ -7,7 +7,9 @@ import H4.Gen.Macros
     * keys: `AN_CREATE_KEY` / `AN_KEY2REF` / `AN_KEY2TYPE` are the GENERATED translations of the C macros;
     * payload: `encodeAnn`/`decodeAnn` — object labels/descriptions carry a 4-byte big-endian target tag/ref prefix,
       file labels/descriptions are the bare text (`ANIwriteann`, `ANIreadann`, `DFANIputann`, `DFANIaddfann`);
-    * state: the annotation data elements of the file in DD (creation) order, and the four per-type TBBTs of
+    * state: the data elements of the file in DD order — a DD whose element was deleted (`Hdeldd`) stays in the list as
+      a FREE DD (tag `DFTAG_NULL`) and is the first to be taken by the next new element (`HTPcreate`) — and the walk
+      state of the single-file file-annotation interface (`Next_label_ref`, `Next_desc_ref`), and the four per-type TBBTs of
       `filerec_t.an_tree[]`, kept as ONE list ordered the way `tbbtfirst/tbbtnext` walk them.  `ANIanncmp` is
       an inverted comparison (returns -1 for "greater"), so the walk is by DESCENDING key. -/
 namespace H4.Annot
@@ -59,19 +61,52 @@ structure Entry where
 deriving Repr, DecidableEq
 
 structure AnState where
-  elems : List ((Nat × Nat) × Bytes) := []   -- annotation data elements (tag, ref) ↦ bytes, in DD order
+  elems : List ((Nat × Nat) × Bytes) := []   -- data elements (tag, ref) ↦ bytes, in DD order; tag `DFTAG_NULL` = free DD
   tree : List (Nat × Entry) := []            -- all four TBBTs, walk order = descending key
   loaded : List Nat := []                    -- types whose `an_num[type] != -1`
+  nextLab : Nat := 0                         -- dfan.c `static uint16 Next_label_ref` (per process, not per file)
+  nextDesc : Nat := 0                        -- dfan.c `static uint16 Next_desc_ref`
+  labDone : Bool := false                    -- dfan.c `static int Label_walk_done` (/repo 358eba8)
+  descDone : Bool := false                   -- dfan.c `static int Desc_walk_done`
 deriving Repr
 
 def elemLook (k : Nat × Nat) : List ((Nat × Nat) × Bytes) → Option Bytes
   | [] => none
   | (k', v) :: r => if k' = k then some v else elemLook k r
 
-/-- `Hputelement`/`Hstartwrite` on a tag/ref: replace in place (the DD is reused) or append a new DD -/
-def elemPut (k : Nat × Nat) (v : Bytes) : List ((Nat × Nat) × Bytes) → List ((Nat × Nat) × Bytes)
+/-- the DD of an existing tag/ref is reused (`HTPselect` + `HTPupdate`) -/
+def elemSet (k : Nat × Nat) (v : Bytes) : List ((Nat × Nat) × Bytes) → List ((Nat × Nat) × Bytes)
+  | [] => []
+  | (k', v') :: r => if k' = k then (k, v) :: r else (k', v') :: elemSet k v r
+
+/-- `HTPcreate`: a new tag/ref takes the FIRST free DD of the DD list (`HTIfind_dd(DFTAG_NULL, DFTAG_WILDCARD)`;
+    `HTPdelete` resets the `ddnull` search hint, so the search starts at the head after every deletion), and only when
+    there is none a DD behind all others (`HTInew_dd_block`) -/
+def elemFill (k : Nat × Nat) (v : Bytes) : List ((Nat × Nat) × Bytes) → List ((Nat × Nat) × Bytes)
   | [] => [(k, v)]
-  | (k', v') :: r => if k' = k then (k, v) :: r else (k', v') :: elemPut k v r
+  | (k', v') :: r => if k'.1 = DFTAG_NULL then (k, v) :: r else (k', v') :: elemFill k v r
+
+/-- `Hputelement`/`Hstartwrite` on a tag/ref: replace in place (the DD is reused) or take a free / new DD -/
+def elemPut (k : Nat × Nat) (v : Bytes) (l : List ((Nat × Nat) × Bytes)) : List ((Nat × Nat) × Bytes) :=
+  if (elemLook k l).isSome then elemSet k v l else elemFill k v l
+
+/-- `Hdeldd` → `HTPdelete`: the DD stays where it is in the DD list, its tag becomes `DFTAG_NULL`
+    (`HTIunregister_tag_ref`); the ref number is free again for `Htagnewref` -/
+def elemDel (k : Nat × Nat) : List ((Nat × Nat) × Bytes) → List ((Nat × Nat) × Bytes)
+  | [] => []
+  | (k', v') :: r => if k' = k then ((DFTAG_NULL, 0), []) :: r else (k', v') :: elemDel k r
+
+/-- `Hstartread(file, tag, ref)`: `ref = DFREF_WILDCARD` attaches to the first DD (DD order) with the tag,
+    otherwise to the DD of that tag/ref -/
+def startRead (tag ref : Nat) (elems : List ((Nat × Nat) × Bytes)) : Option ((Nat × Nat) × Bytes) :=
+  if ref = DFREF_WILDCARD then elems.find? (fun p => p.1.1 == tag)
+  else (elemLook (tag, ref) elems).map (fun b => ((tag, ref), b))
+
+/-- `Hnextread(aid, tag, DFREF_WILDCARD, DF_CURRENT)` on an access element attached to `(tag, ref)`:
+    the ref of the next DD with the tag BEHIND that DD in the DD list -/
+def afterRef (tag ref : Nat) : List ((Nat × Nat) × Bytes) → Option Nat
+  | [] => none
+  | p :: r => if p.1 = (tag, ref) then (r.find? (fun q => q.1.1 == tag)).map (·.1.2) else afterRef tag ref r
 
 /-- `tbbtdins` with `ANIanncmp`: keep the walk order descending; `none` = key already present -/
 def treeIns (key : Nat) (e : Entry) : List (Nat × Entry) → Option (List (Nat × Entry))
@@ -108,7 +143,8 @@ inductive Op where
   | start                                         -- `Hopen` of a file that is not open (new `filerec_t`) + `ANstart`: no tree loaded
   | endan                                         -- `ANend`; the file id stays open, the `filerec_t` lives on
   | restart                                       -- `ANstart` on a file id of a `filerec_t` that is still open
-  | hput (tag ref : Nat) (b : Bytes)              -- `Hputelement` of an annotation element through an open file id
+  | hput (tag ref : Nat) (b : Bytes)              -- `Hputelement` of an annotation (or any other) element through an open file id
+  | hdel (tag ref : Nat)                          -- `Hdeldd`: the only way HDF4 offers to delete an annotation
   | fileinfo                                      -- `ANfileinfo`
   | create (t etag eref annref : Nat)             -- `ANcreate`/`ANcreatef`; `annref` = what `Htagnewref` returned
   | writeann (t annref : Nat) (text : Bytes)      -- `ANwriteann`
@@ -124,7 +160,9 @@ inductive Op where
   | dfget (t etag eref maxlen : Nat)              -- `DFANgetlabel`/`DFANgetdesc`
   | dfgetlen (t etag eref : Nat)
   | dfaddf (t annref : Nat) (text : Bytes)        -- `DFANaddfid`/`DFANaddfds`
-  | dfgetf (t i maxlen : Nat)                     -- the i-th `DFANgetfid`/`DFANgetfds` of a walk (isfirst = 1, 0, 0, …)
+  | dfflen (t first : Nat)                        -- `DFANgetfidlen`/`DFANgetfdslen(file_id, isfirst)`
+  | dffget (t first maxlen : Nat)                 -- `DFANgetfid`/`DFANgetfds(file_id, buf, maxlen, isfirst)`
+  | dflablist (tag listsize maxlen startpos : Nat)    -- `DFANlablist`
 deriving Repr, DecidableEq
 
 inductive Out where
@@ -133,6 +171,7 @@ inductive Out where
   | nats (l : List Nat)
   | bytes (b : Bytes)
   | read (b : Bytes) (written : Nat)     -- the text returned and how many bytes of the caller's buffer were written
+  | lablist (refs : List Nat) (labels : List Bytes)   -- `DFANlablist`: reflist and the label (C string) of each entry
 deriving Repr, DecidableEq
 
 /-- `ANIreadann` / `DFANIgetann` on a text of `len` bytes with a caller buffer of `maxlen` bytes:
@@ -151,6 +190,31 @@ def indexed (t : Nat) (s : AnState) (index : Int) : Option Entry :=
 def dfLocate (tag : Nat) (target : Nat × Nat) (elems : List ((Nat × Nat) × Bytes)) : Option Nat :=
   (elems.find? (fun p => p.1.1 == tag && p.2.take 4 == u16 target.1 ++ u16 target.2)).map (·.1.2)
 
+/-- `Next_label_ref` / `Next_desc_ref` -/
+def nextOf (s : AnState) (t : Nat) : Nat := if t = AN_FILE_LABEL then s.nextLab else s.nextDesc
+/-- `Label_walk_done` / `Desc_walk_done`: the file label / description `DFANIgetfann` read last was the last one -/
+def doneOf (s : AnState) (t : Nat) : Bool := if t = AN_FILE_LABEL then s.labDone else s.descDone
+def setNext (s : AnState) (t r : Nat) (done : Bool) : AnState :=
+  if t = AN_FILE_LABEL then { s with nextLab := r, labDone := done } else { s with nextDesc := r, descDone := done }
+
+/-- the bytes `DFANIgetfann` returns: `length = min(length, maxlen)` is read, then `length = min(length, maxlen - 1)` -/
+def clipF (b : Bytes) (maxlen : Nat) : Bytes := b.take (min (min b.length maxlen) (maxlen - 1))
+
+/-- `DFANIlablist`, label part: every entry of the label directory (object labels in DD order) whose target has the tag
+    overwrites the label of its target's position in `reflist`, so the LAST label of an object is the one listed;
+    `maxlen - 1` bytes of the text are read, none for `maxlen = 1` (/repo 380b3fd; before that the length 0 was handed
+    to `Hread`, for which it means "to the end", and the whole label overran the caller's buffer — finding
+    `dfan-lablist-overrun`) -/
+def labFill (tag maxlen : Nat) (refs : List Nat) : List ((Nat × Nat) × Bytes) → List Bytes → List Bytes
+  | [], acc => acc
+  | p :: r, acc =>
+    match decodeAnn AN_DATA_LABEL (0, 0) p.2 with
+    | some (target, text) =>
+      if target.1 = tag ∧ refs.idxOf target.2 < refs.length then
+        labFill tag maxlen refs r (acc.set (refs.idxOf target.2) (text.take (maxlen - 1)))
+      else labFill tag maxlen refs r acc
+    | none => labFill tag maxlen refs r acc
+
 def step (s : AnState) : Op → AnState × Out
   | .start => ({ s with tree := [], loaded := [] }, .ok)
   -- `ANend`: for EACH of the four types the tree is freed (`tbbtdfree`), its annotation atoms are removed, and
@@ -160,6 +224,10 @@ def step (s : AnState) : Op → AnState × Out
   -- session sees is whatever `ANend` (or `Hopen`) left there: nothing
   | .restart => (s, .ok)
   | .hput tag ref b => ({ s with elems := elemPut (tag, ref) b s.elems }, .ok)
+  -- `Hdeldd`: `HTPselect` fails for a tag/ref that is not in the file
+  | .hdel tag ref =>
+    if tag = DFTAG_NULL ∨ (elemLook (tag, ref) s.elems).isNone then (s, .fail)
+    else ({ s with elems := elemDel (tag, ref) s.elems }, .ok)
   | .fileinfo =>
     let s1 := loadType (loadType (loadType (loadType s AN_FILE_LABEL) AN_FILE_DESC) AN_DATA_LABEL) AN_DATA_DESC
     (s1, .nats [countType s1 AN_FILE_LABEL, countType s1 AN_FILE_DESC, countType s1 AN_DATA_LABEL, countType s1 AN_DATA_DESC])
@@ -266,12 +334,41 @@ def step (s : AnState) : Op → AnState × Out
     match tagOfType t with
     | none => (s, .fail)
     | some tag => ({ s with elems := elemPut (tag, annref) text s.elems }, .ok)
-  | .dfgetf t i maxlen =>
+  -- `DFANIgetfannlen`: past the last one (`isfirst != 1` and the walk is marked done) nothing is reported; else
+  -- `Hstartread(file_id, anntag, isfirst == 1 ? DFREF_WILDCARD : Next_???_ref)`; on success `Next_???_ref = annref`
+  -- (the ref found), so that the `DFANgetfid` that follows reads the same annotation, and the walk is not done
+  | .dfflen t first =>
     match tagOfType t with
     | none => (s, .fail)
     | some tag =>
-      match (s.elems.filter (fun p => p.1.1 == tag))[i]? with
+      if isDataType t then (s, .fail) else
+      if first ≠ 1 ∧ doneOf s t = true then (s, .fail) else
+      match startRead tag (if first = 1 then DFREF_WILDCARD else nextOf s t) s.elems with
       | none => (s, .fail)
-      | some p => (s, .bytes (p.2.take (min (min p.2.length maxlen) (maxlen - 1))))
+      | some p => (setNext s t p.1.2 false, .int p.2.length)
+  -- `DFANIgetfann`: the same guard and lookup, the read, then "prepare for next call": `Hnextread(aid, anntag,
+  -- DFREF_WILDCARD, DF_CURRENT)` finds the next annotation of the tag BEHIND this one in the DD list and its ref becomes
+  -- `Next_???_ref`; when there is none the walk is marked done (`Next_???_ref = (uint16)(annref + 1)` is kept but is no
+  -- longer what ends the walk: before /repo 358eba8 it was, and the walk went round again whenever an annotation with
+  -- that ref existed or the value wrapped to 0 = `DFREF_WILDCARD` — finding `dfan-walk-endless`)
+  | .dffget t first maxlen =>
+    match tagOfType t with
+    | none => (s, .fail)
+    | some tag =>
+      if isDataType t then (s, .fail) else
+      if first ≠ 1 ∧ doneOf s t = true then (s, .fail) else
+      match startRead tag (if first = 1 then DFREF_WILDCARD else nextOf s t) s.elems with
+      | none => (s, .fail)
+      | some p =>
+        match afterRef tag p.1.2 s.elems with
+        | some r => (setNext s t r false, .bytes (clipF p.2 maxlen))
+        | none => (setNext s t ((p.1.2 + 1) % 65536) true, .bytes (clipF p.2 maxlen))
+  -- `DFANIlablist`: `reflist` = the refs of the objects with the tag in DD order, from position `startpos` (1-based),
+  -- at most `listsize`; fails when the file holds no object of the tag (`Hstartread` fails)
+  | .dflablist tag listsize maxlen startpos =>
+    let objs := (s.elems.filter (fun p => p.1.1 == tag)).map (·.1.2)
+    if tag = 0 ∨ objs.isEmpty then (s, .fail) else
+    let refs := (objs.drop (startpos - 1)).take listsize
+    (s, .lablist refs (labFill tag maxlen refs (s.elems.filter (fun p => p.1.1 == TAG_DATA_LABEL)) (refs.map (fun _ => []))))
 
 end H4.Annot
